@@ -79,6 +79,22 @@ func genProto(r *gen.R) protoCase {
 			}
 		}
 	}
+	if raw && r.Chance(0.1) {
+		// a typed field that is empty but not nil (a message re-encoded from typed to raw by
+		// re-slicing): the raw payload is the data
+		switch tp.DataType {
+		case 1:
+			tp.FloatData = []float32{}
+		case 11:
+			tp.DoubleData = []float64{}
+		case 7:
+			tp.Int64Data = []int64{}
+		case 12, 13:
+			tp.Uint64Data = []uint64{}
+		default:
+			tp.Int32Data = []int32{}
+		}
+	}
 	pc := protoCase{tp: tp, mutation: "none"}
 	if r.Chance(0.45) {
 		sz := dt.Size()
@@ -283,6 +299,23 @@ func c12Run(c *Ctx) {
 		g := &mon.Graph{Outputs: []mon.GInput{{Name: "w", NoType: true}}}
 		mp := g.Proto()
 		mp.Graph.Initializer = []*onnx.TensorProto{tp}
+		if twin := sameBytesOtherType(tp); twin != nil && c.Idx%6 == 0 {
+			// ... next to a second initializer with the same dims and byte-identical raw payload but
+			// another element type of the same width: each must be decoded with its own type
+			mp.Graph.Initializer = append(mp.Graph.Initializer, twin)
+			mp.Graph.Output = append(mp.Graph.Output, &onnx.ValueInfoProto{Name: twin.Name})
+			if o := mon.RunModelProtoDirect(proto.Clone(mp).(*onnx.ModelProto), nil, []string{"w", twin.Name}); o.Kind == mon.Value && len(o.Vals) == 2 && o.Vals[1] != nil {
+				if wantTwin, err := ref.Decode(neutralOf(twin)); err == nil {
+					if k, d := CompareValue(o.Vals[1], &ref.Approx{T: wantTwin}, CmpBits); k != "" {
+						c.Violation("decode:"+k, "[two initializers with the same bytes] the second one (type %d): %s | %s", twin.DataType, d, c.caseStr)
+					}
+				}
+			}
+			c.Eval(1)
+			c.Count("models-with-two-initializers-of-the-same-bytes", 1)
+			mp.Graph.Initializer = mp.Graph.Initializer[:1]
+			mp.Graph.Output = mp.Graph.Output[:1]
+		}
 		before := proto.Clone(mp)
 		load := runProtoModel
 		path := "initializer+Run"
@@ -414,4 +447,20 @@ func c12Concurrent(c *Ctx, small *onnx.TensorProto, _ mon.Outcome) {
 			c.Count("concurrent-decoding-deviation-not-reproduced", 1)
 		}
 	}
+}
+
+// sameBytesOtherType returns a raw-encoded copy of tp under another name with
+// another element type of the same byte width (nil when there is none).
+func sameBytesOtherType(tp *onnx.TensorProto) *onnx.TensorProto {
+	if len(tp.RawData) == 0 {
+		return nil
+	}
+	other := map[int32]int32{1: 6, 6: 1, 7: 11, 11: 7, 12: 1, 13: 11, 2: 3, 3: 2, 4: 5, 5: 4}[tp.DataType]
+	if other == 0 {
+		return nil
+	}
+	twin := proto.Clone(tp).(*onnx.TensorProto)
+	twin.Name = "w_twin"
+	twin.DataType = other
+	return twin
 }
